@@ -1184,7 +1184,9 @@ func (e *Engine) lookupMethod(t types.Type, m *types.Func) *ssa.Function {
 	ms := e.prog.MethodSets.MethodSet(t)
 	sel := ms.Lookup(m.Pkg(), m.Name())
 	if sel == nil {
-		e.unsupported("method %s not found on %v", m.Name(), t)
+		// impossible in a well-typed program: the interface value was written through
+		// an invalid reinterpretation of memory
+		e.goPanic("invalid reinterpretation: method %s invoked on a value of type %v, which does not have it", m.Name(), t)
 	}
 	fn := e.prog.MethodValue(sel)
 	if fn == nil {
@@ -1467,6 +1469,7 @@ func (e *Engine) exec(fr *frame, in ssa.Instruction) {
 		}
 		if p.idx == nil && p.c != nil {
 			p = Ptr{c: e.viewAs(e.resolve(p, "store"), x.Val.Type())}
+			e.checkIfaceAccess(p.c, x.Val.Type())
 		}
 		e.storePtr(p, e.get(fr, x.Val))
 	case *ssa.UnOp:
@@ -1754,6 +1757,7 @@ func (e *Engine) unop(fr *frame, x *ssa.UnOp) Val {
 		}
 		if p.idx == nil && p.c != nil {
 			p = Ptr{c: e.viewAs(e.resolve(p, "load"), x.Type())}
+			e.checkIfaceAccess(p.c, x.Type())
 		}
 		val := e.loadPtr(p)
 		return e.checkView(val, x.Type())
@@ -1797,13 +1801,34 @@ func (e *Engine) checkView(v Val, t types.Type) Val {
 	return v
 }
 
+// checkIfaceAccess: memory holding an interface value is accessed as an interface
+// type t (through a pointer obtained by an unsafe conversion, otherwise the types
+// agree): the empty interface and interfaces with methods are not interchangeable.
+func (e *Engine) checkIfaceAccess(c *Cell, t types.Type) {
+	if c == nil || c.typ == nil || t == nil {
+		return
+	}
+	if _, ok := t.Underlying().(*types.Interface); !ok {
+		return
+	}
+	if _, ok := c.typ.Underlying().(*types.Interface); !ok {
+		return
+	}
+	if !shapeCompatible(c.typ, t) {
+		e.goPanic("invalid reinterpretation: interface value of type %v accessed as %v", c.typ, t)
+	}
+}
+
 func shapeCompatible(a, b types.Type) bool {
 	if types.Identical(a.Underlying(), b.Underlying()) {
 		return true
 	}
-	_, ai := a.Underlying().(*types.Interface)
-	_, bi := b.Underlying().(*types.Interface)
-	return ai && bi
+	// interface values: the empty interface (type word, data) and interfaces with
+	// methods (method table, data) are laid out differently, and the method table
+	// belongs to one interface type
+	ia, ai := a.Underlying().(*types.Interface)
+	ib, bi := b.Underlying().(*types.Interface)
+	return ai && bi && ia.NumMethods() == 0 && ib.NumMethods() == 0
 }
 
 func (e *Engine) ptrAdd(c *Cell, off int64) *Cell {
